@@ -1,15 +1,173 @@
 /-
-  C04 — structural transformations preserve the sentence and tree well-formedness.
-  (theorems are being added; see tools/agent_briefs/C04.md)
+  C04 — structural transformations preserve the sentence and tree well-formedness,
+  alone or in any sequence (see tools/agent_briefs/C04.md).
+
+  Every per-step statement is a corollary of ONE invariant proved per step in `TT/Lemmas/Steps.lean`:
+  `StepInv t t'`  (tokens keep number and word, no childless constituent appears; all 12 steps) and
+  `StepInvS t t'` (also the POS tags are kept and a constituent stays a constituent; the 10 steps
+  that do not collapse).  The invariants are folded over the list of steps for the sequence theorems.
 -/
 import TT.Spec.Transform
+import TT.Spec.Steps
 import TT.Transform.Misc
+import TT.Lemmas.Steps
 namespace TT.Props.C04
 open TT TT.Tree TT.Spec
+open TT.Lemmas.Steps
+
+/-! ### example trees -/
+
+private def lf (n : Nat) (l w : String) (e : String := "--") (h : Option Bool := none) : Tree :=
+  leaf n { label := l.toList, word := some w.toList, edge := some e.toList, head := h }
+private def nd (l : String) (ks : List Tree) (e : String := "--") (h : Option Bool := none) : Tree :=
+  node { label := l.toList, edge := some e.toList, head := h } ks
+
+/-- `(S (VP (PP (A 1)) (B 3) (V 4)) (C 2) (. 5))`: discontinuous `VP` (token 2 is outside), a unary
+    `PP`, final punctuation below the root; storage order shuffled; heads marked (`V`, `VP`). -/
+def exT : Tree :=
+  nd "S" [lf 5 "$." ".", nd "VP" [lf 4 "V" "v" "HD" (some true), nd "PP" [lf 1 "A" "a" "HD" (some true)] "MO" (some false),
+     lf 3 "B" "b" "OA" (some false)] "HD" (some true), lf 2 "C" "c" "SB" (some false)] "--" (some false)
+
+/-- a long sequence of steps without collapsing -/
+def exSteps : List TStep :=
+  [.rootAttach, .negra, .rules .negra, .verylow, .proot, .sym none, .boyd, .raising, .binarize false, .topnode]
+
+/-- a sequence with collapsing and uncollapsing in the middle -/
+def exStepsC : List TStep :=
+  [.negra, .collapse, .verylow, .boyd, .raising, .uncollapse, .binarize true, .collapse, .topnode]
+
+/-- a one-token sentence: collapsing gives the bare token, `add_topnode` puts a constituent back -/
+def exOne : Tree := nd "S" [nd "NP" [lf 1 "N" "n"]]
+
+example : WF exT = true := by decide
+example : WF exOne = true := by decide
+example : ∃ t', boydSplit exT = .ok t' ∧ t'.leafNums = [5, 4, 3, 1, 2] := ⟨_, rfl, by decide⟩
+example : ∃ t', applySteps exSteps exT = .ok t' := ⟨_, rfl⟩
+example : ∃ t', applySteps exStepsC exT = .ok t' := ⟨_, rfl⟩
+example : ∃ t', applySteps [.collapse] exOne = .ok t' ∧ t'.isLeaf = true := ⟨_, rfl, rfl⟩
+
+/-! ### add_topnode -/
 
 /-- add_topnode adds exactly one constituent, labelled TOP, above the old root -/
 theorem addTopnode_shape (t : Tree) :
     (addTopnode t).kids = [t] ∧ (addTopnode t).fields.label = "TOP".toList := by
   simp [addTopnode, Tree.kids, Tree.fields]
+
+/-! ### per transformation: well-formedness and sentence -/
+
+theorem negra_WF (t : Tree) (h : WF t = true) : WF (negraMarkHeads t) = true ∧ sentence (negraMarkHeads t) = sentence t :=
+  (negra_inv t).both h
+
+example : WF (negraMarkHeads exT) = true ∧ sentence (negraMarkHeads exT) = sentence exT :=
+  negra_WF exT (by decide)
+
+theorem rules_WF (p : Preset) (t t' : Tree) (h : WF t = true) (hr : markHeadsByRules (some p) none t = .ok t') :
+    WF t' = true ∧ sentence t' = sentence t :=
+  (rules_inv p t t' hr).both h
+
+example : ∃ t', markHeadsByRules (some Preset.ptb) none exT = .ok t' ∧ WF t' = true ∧ sentence t' = sentence exT :=
+  ⟨_, rfl, rules_WF .ptb exT _ (by decide) rfl⟩
+
+theorem topnode_WF (t : Tree) (h : WF t = true) :
+    WF (addTopnode t) = true ∧ sentence (addTopnode t) = sentence t ∧ consLabels (addTopnode t) = "TOP".toList :: consLabels t := by
+  obtain ⟨h1, h2⟩ := (topnode_inv t).both h
+  refine ⟨h1, h2, ?_⟩
+  simp [addTopnode, consLabels, consLabelsL]
+
+example : consLabels (addTopnode exT) = ["TOP".toList, "S".toList, "VP".toList, "PP".toList] := by decide
+
+theorem boyd_WF (t t' : Tree) (h : WF t = true) (hb : boydSplit t = .ok t') : WF t' = true ∧ sentence t' = sentence t :=
+  (boyd_inv t t' hb (Lemmas.WF.WF_nodup t h)).both h
+
+example : ∃ t', boydSplit exT = .ok t' ∧ WF t' = true ∧ sentence t' = sentence exT :=
+  ⟨_, rfl, boyd_WF exT _ (by decide) rfl⟩
+
+theorem raising_WF (t : Tree) (h : WF t = true) : WF (raising t) = true ∧ sentence (raising t) = sentence t :=
+  (raising_inv t).both h
+
+example : ∃ t', boydSplit exT = .ok t' ∧ WF (raising t') = true ∧ sentence (raising t') = sentence exT := by
+  obtain ⟨h1, h2⟩ := boyd_WF exT _ (by decide) rfl
+  obtain ⟨h3, h4⟩ := raising_WF _ h1
+  exact ⟨_, rfl, h3, h4.trans h2⟩
+
+theorem binarize_WF (bare : Bool) (t t' : Tree) (h : WF t = true) (hb : Tree.binarize bare t = .ok t') :
+    WF t' = true ∧ sentence t' = sentence t :=
+  (binarize_inv bare t t' hb).both h
+
+example : ∃ t', Tree.binarize false exT = .ok t' ∧ maxArity t' = 2 ∧ WF t' = true ∧ sentence t' = sentence exT :=
+  ⟨_, rfl, by decide, binarize_WF false exT _ (by decide) rfl⟩
+
+theorem collapse_WFc (t : Tree) (h : WF t = true) : WFc (collapse t) = true ∧ wordsOf (collapse t) = wordsOf t :=
+  ⟨(collapse_inv t).wfc (WFc_of_WF t h),
+   wordsOf_of_leaves_eq t (collapse t) (by rw [wtok_eq_collapse]; exact Lemmas.Collapse.leaves_collapse t)⟩
+
+example : consLabels (collapse exT) = ["S".toList] ∧ WFc (collapse exT) = true := ⟨by decide, (collapse_WFc exT (by decide)).1⟩
+-- the one-token case for which `WFc` is needed instead of `WF`
+example : (collapse exOne).isLeaf = true ∧ WF (collapse exOne) = false ∧ WFc (collapse exOne) = true := by decide
+
+theorem uncollapse_words (t : Tree) : wordsOf (uncollapse t) = wordsOf t ∧ (uncollapse t).leafNums = t.leafNums :=
+  ⟨wordsOf_of_leaves_eq t (uncollapse t) (leaves_uncollapse t), uncollapse_leafNums t⟩
+
+example : consLabels (uncollapse (collapse exOne)) = ["S".toList, "NP".toList] ∧
+    wordsOf (uncollapse (collapse exOne)) = wordsOf exOne := by decide
+
+/-- moreover un-collapsing keeps `noEmpty`, so a well-formed tree (even a bare token) stays well-formed -/
+theorem uncollapse_WFc (t : Tree) (h : WFc t = true) : WFc (uncollapse t) = true :=
+  (uncollapse_inv t).wfc h
+
+/-- the single-step form of the invariant, for every step on a well-formed tree -/
+theorem step_preserves_words (s : TStep) (t t' : Tree) (h : WF t = true) (hs : s.apply t = .ok t') :
+    wordsOf t' = wordsOf t ∧ t'.noEmpty = true ∧ t'.leafNums.Perm t.leafNums ∧ WFc t' = true := by
+  have i := step_inv s t t' (WFc_of_WF t h) hs
+  exact ⟨i.wordsEq (Lemmas.WF.WF_nodup t h), i.noEmpty (Lemmas.WF.WF_noEmpty t h), i.leafNums,
+    i.wfc (WFc_of_WF t h)⟩
+
+/-! ### sequences: ANY sequence of steps that does not fail (a failing step is a violated prerequisite) -/
+
+/-- ... without collapsing: well-formedness and the whole sentence (words and POS) are preserved -/
+theorem seq_preserves (steps : List TStep) (t t' : Tree) (h : WF t = true)
+    (hnc : ∀ s ∈ steps, s.isCollapse = false) (hs : applySteps steps t = .ok t') :
+    WF t' = true ∧ sentence t' = sentence t :=
+  (seq_strong steps t t' h hnc hs).both h
+
+example : ∃ t', applySteps exSteps exT = .ok t' ∧ WF t' = true ∧ sentence t' = sentence exT :=
+  ⟨_, rfl, seq_preserves exSteps exT _ (by decide) (by decide) rfl⟩
+
+/-- ... with collapsing/uncollapsing anywhere: tokens keep number and word, no constituent is left childless -/
+theorem seq_preserves_words (steps : List TStep) (t t' : Tree) (h : WF t = true) (hs : applySteps steps t = .ok t') :
+    wordsOf t' = wordsOf t ∧ t'.noEmpty = true := by
+  have i := seq_inv steps t t' (WFc_of_WF t h) hs
+  exact ⟨i.wordsEq (Lemmas.WF.WF_nodup t h), i.noEmpty (Lemmas.WF.WF_noEmpty t h)⟩
+
+example : ∃ t', applySteps exStepsC exT = .ok t' ∧ wordsOf t' = wordsOf exT ∧ t'.noEmpty = true :=
+  ⟨_, rfl, seq_preserves_words exStepsC exT _ (by decide) rfl⟩
+
+/-- moreover the result is well-formed up to the one-token case (`WFc`) and the token numbers are permuted -/
+theorem seq_preserves_WFc (steps : List TStep) (t t' : Tree) (h : WF t = true) (hs : applySteps steps t = .ok t') :
+    WFc t' = true ∧ t'.leafNums.Perm t.leafNums := by
+  have i := seq_inv steps t t' (WFc_of_WF t h) hs
+  exact ⟨i.wfc (WFc_of_WF t h), i.leafNums⟩
+
+-- a one-token sentence through collapse (bare token), punctuation steps on the bare token, topnode
+example : ∃ t', applySteps [.collapse, .verylow, .proot, .sym none, .boyd, .uncollapse, .topnode] exOne = .ok t' ∧
+    wordsOf t' = wordsOf exOne ∧ t'.noEmpty = true :=
+  ⟨_, rfl, seq_preserves_words _ exOne _ (by decide) rfl⟩
+
+/-! ### label multisets -/
+
+theorem negra_bag (t : Tree) : consLabels (negraMarkHeads t) = consLabels t :=
+  Props.C15.negra_consLabels t
+
+example : consLabels (negraMarkHeads exT) = ["S".toList, "VP".toList, "PP".toList] := by
+  rw [negra_bag]; decide
+
+theorem raising_bag (f : Fields) (ks : List Tree) :
+    (consLabels (raising (node f ks))).Perm
+      (f.label :: ((subtreesL ks).filter (fun s => !s.isLeaf && !removable s)).map (·.fields.label)) := by
+  rw [Props.C05.raising_consLabels]
+
+example : ∃ f ks, boydSplit exT = .ok (node f ks) ∧
+    consLabels (node f ks) = ["S".toList, "VP".toList, "PP".toList, "VP".toList] ∧
+    consLabels (raising (node f ks)) = ["S".toList, "VP".toList] := ⟨_, _, rfl, by decide, by decide⟩
 
 end TT.Props.C04
